@@ -165,6 +165,13 @@ def run_case(case, drv):
     else:
         st, cg = outcome(lambda: G.extract(C))
         if st == "ok":
+            # structural tie with the model of _get_production / get_cfg_rules
+            mc = drv.call("rx.toCFG", tree=impl["tree"], start="S")
+            res.corr += 1
+            dcfg = G.same(cg, mc, ("start", "prods"))
+            if dcfg:
+                res.corr_break("to_cfg", "grammar differs from the model: %s" % dcfg,
+                               detail={"text": text, "impl": cg["prods"], "model": mc["prods"]})
             mem = drv.call("cfg.member", G=cg, words=words[:40])
             for w, a, b in zip(words, mem, want):
                 res.evals += 1
